@@ -24,7 +24,7 @@ RULE = ("one case = one complete Simulator.run(): 1-6 stations (EVSE / DeadbandE
         "120/208/240/277), period 1/5/15, sessions per station with back-to-back reuse and gaps, Battery / "
         "Linear2StageBattery continuous / stepwise (noise 0 and, with a patched np.random.normal, noise > 0) at initial "
         "SoC around every regime boundary, scripted scheduler (max_recompute 1 / k / None, multi-period schedules, "
-        "non-zero pilots addressed to vacant stations); 5% of the histories contain one invalid pilot (run aborts). "
+        "non-zero pilots addressed to vacant stations); ~10% malformed histories (one invalid pilot / a session plugged into an occupied station / an unregistered station): run() aborts and the model must fail at exactly that operation. "
         "Distinct = distinct (network, sessions, pilot script); non-trivial = at least one period delivers energy")
 ASSUMPTIONS = ["theorems are over R (exact arithmetic); the implementation computes in IEEE doubles (values compared to 1e-9 relative)",
                "every session id is plugged at most once (C01) and station ids are distinct",
@@ -154,7 +154,8 @@ def run_history(inp, extra=None):
             finally:
                 draw_log.append((_k, noise.log[before:]))
         batt.charge = charge
-        ev = EV(s["arrival"], s["departure"], s["requested"], station_ids[s["station"]], name, batt)
+        ev = EV(s["arrival"], s["departure"], s["requested"],
+                station_ids[s["station"]] if s["station"] >= 0 else "not-registered", name, batt)
         evs.append(ev)
         events.append(PluginEvent(s["arrival"], ev))
 
@@ -195,7 +196,8 @@ def run_history(inp, extra=None):
             for name, ev in sim.ev_history.items():
                 d = json.loads(ev.to_json())
                 bj = [v for v in d["context_dict"].values() if "Battery" in v["class"]][0]["attributes"]
-                sess.append(dict(sid=sess_num[name], station=station_ids.index(ev.station_id),
+                sess.append(dict(sid=sess_num[name],
+                                 station=station_ids.index(ev.station_id) if ev.station_id in station_ids else -1,
                                  energy=float(ev.energy_delivered), charge=float(ev._battery._current_charge),
                                  charge_json=float(bj["_current_charge"]), init=float(ev._battery._init_charge),
                                  rate=float(ev.current_charging_rate), requested=float(ev.requested_energy)))
@@ -304,6 +306,19 @@ def gen_history(rng, tier, force=None):
                 L = max(len(v) for v in script[t].values())
                 for k in script[t]:
                     script[t][k] = (script[t][k] + [0.0] * L)[:L]
+    # malformed histories (the run must abort, the model must return None at the same point):
+    # a session plugged into an occupied station / into a station that is not registered
+    if force == "overlap" or (force is None and bad is None and sessions and rng.random() < 0.03):
+        if sessions:
+            s0 = rng.choice(sessions)
+            b = rand_battery(rng, False)
+            t = rng.randint(s0["arrival"], s0["departure"] - 1)
+            sessions.append(dict(station=s0["station"], arrival=t, departure=t + 2, requested=1.0, battery=b))
+            bad = ["overlap", s0["station"]]
+    elif force == "unknown" or (force is None and bad is None and sessions and rng.random() < 0.02):
+        b = rand_battery(rng, False)
+        sessions.append(dict(station=-1, arrival=rng.randint(0, last), departure=last + 1, requested=1.0, battery=b))
+        bad = ["unknown-station", -1]
     draws = [round(rng.gauss(0, 1), 4) for _ in range(17)] if noisy else []
     return dict(stations=stations, period=period, sessions=sessions, script=script,
                 max_recompute=max_recompute, noise_draws=draws, bad=bad)
@@ -390,7 +405,7 @@ def pmap(fn, items, workers=8):
 
 
 def gen_cases(rng, n, tier):
-    inputs = [gen_history(rng, tier, "invalid" if k == 3 else None) for k in range(n)]
+    inputs = [gen_history(rng, tier, {3: "invalid", 5: "overlap", 7: "unknown"}.get(k)) for k in range(n)]
     return pmap(make_case, inputs)
 
 
